@@ -906,7 +906,6 @@ func (sc *StorageSmartContract) extendAllocation(
 
 	var (
 		diff = req.getBlobbersSizeDiff(alloc) // size difference
-		size = req.getNewBlobbersSize(alloc)  // blobber size
 
 		// keep original terms to adjust challenge pool value
 		originalTerms = make([]Terms, 0, len(alloc.BlobberAllocs))
@@ -966,7 +965,7 @@ func (sc *StorageSmartContract) extendAllocation(
 			return
 		}
 
-		details.Size = size // new size
+		details.Size += diff // new size (each blobber's Allocated grows by diff as well)
 
 		// update blobber's offer
 		newOffer := details.Offer()
